@@ -130,26 +130,11 @@ def kernel_dependency(ck):
     from nuspacesim.simulation.eas_optical.cphotang import CphotAng
 
     qn = "cphotang:CphotAng.run[cloud]"
-    fn = CphotAng.run
-    node = find_def(fn)
-    src_names = [n.id for n in ast.walk(node) if isinstance(n, ast.Name)]
-    uses = [n for n in ast.walk(node) if isinstance(n, ast.Name) and n.id in ("cloud_top_height", "cloud_mask")]
-    # def-use by line order inside run: mask store precedes every consumer of SPYield
-    store_line = None
-    consumer_lines = []
-    for st in ast.walk(node):
-        if isinstance(st, ast.Assign) and any(isinstance(t, ast.Subscript) and isinstance(t.value, ast.Name) and t.value.id == "SPYield" for t in st.targets):
-            if any(isinstance(n, ast.Name) and n.id == "cloud_mask" for n in ast.walk(st)):
-                store_line = st.lineno
-        if isinstance(st, ast.Call) or isinstance(st, ast.BinOp):
-            pass
-    for st in node.body:
-        names = {n.id for n in ast.walk(st) if isinstance(n, ast.Name)}
-        if "SPYield" in names and not (isinstance(st, ast.Assign) and st.lineno == store_line) and not (isinstance(st, ast.Assign) and any(isinstance(t, ast.Name) and t.id == "SPYield" for t in st.targets)):
-            consumer_lines.append(st.lineno)
-    ok = store_line is not None and consumer_lines and all(l > store_line for l in consumer_lines)
-    ck.direct("%s/defuse.mask_before_use" % qn, bool(ok), "post", "syntactic def-use on the AST of run", note="mask store at line %s, SPYield consumers at %s" % (store_line, consumer_lines),
-              clause="every use of the per-segment yield comes after the segments below the cloud top have been zeroed")
+    # semantic, on explicit arrays (shared with C06): early exit, which steps are zeroed and that nothing else depends on the cloud top
+    from contracts import C06
+
+    C06.run_body_obligations(ck, (7, 5, 2))
+    C06.run_body_obligations(ck, (2, 7, 5))
 
 
 def native_first(ck, model=None):
